@@ -7,9 +7,11 @@
    Free-running case: the totally ordered event log of an uncontrolled run is judged by the history
    predicates of the theorems (log_safe, completeness, final store).
    Faulty case: a free-running log of a run over a store whose n-th Commit / Batched call returns an error, judged by
-   the writer protocol with faults (FaultModel.fck_run, the language of Fault.safety_faults). *)
+   the writer protocol with faults (FaultModel.fck_run, the language of Fault.safety_faults).
+   Objs case: a log of a run with objects that issue several Set / Delete calls per BatchWrite; the store read back
+   byte-exact is compared with Muts.apply_muts over the mutation calls of the committed batches. *)
 From Coq Require Import List Bool Arith ZArith.
-From Verif.C08_Batch Require Import Model FaultModel.
+From Verif.C08_Batch Require Import Model FaultModel Muts.
 Import ListNotations.
 
 Inductive item :=
@@ -221,23 +223,84 @@ Fixpoint quiet_after_stop (l : list event) : bool :=
   | _ :: r => quiet_after_stop r
   end.
 
-Definition free_ok (l : list event) (nobj : nat) (final : list (option nat)) (stopped : bool) : bool :=
+(* no Enqueue call is rejected before a Stop call has been invoked (C08_enqueue_accepted_before_stop; in free-running
+   logs EvInv is logged for Stop calls only) *)
+Fixpoint no_rej_before_stop (l : list event) : bool :=
+  match l with
+  | [] => true
+  | EvInv _ :: _ => true
+  | EvRet _ RRej :: _ => false
+  | _ :: r => no_rej_before_stop r
+  end.
+
+(* everything but the comparison of the store that was read back *)
+Definition proto_ok (l : list event) (nobj : nat) (stopped : bool) : option ck :=
   match ck_run ck0 l with
+  | None => None
+  | Some k =>
+      if forallb (fun o => optnat_eqb (k_store k o) (last_w (committed l) o)) (seq 0 nobj) &&
+         quiet_after_stop l && no_rej_before_stop l &&
+         (negb stopped ||
+          (match k_unc k, k_pend k with [], [] => true | _, _ => false end &&
+           pairs_eqb (writes l) (committed l) &&
+           forallb (fun o => match last_setter (rev l) o with
+                             | Some (t, v) => match ret_of l t with
+                                              | Some RAcc | Some RDup => optnat_eqb (k_store k o) (Some v) && negb (dirty (rev l) o)
+                                              | _ => true
+                                              end
+                             | None => true
+                             end) (seq 0 nobj)))
+      then Some k else None
+  end.
+
+Definition free_ok (l : list event) (nobj : nat) (final : list (option nat)) (stopped : bool) : bool :=
+  match proto_ok l nobj stopped with
+  | None => false
+  | Some k => store_eqb (k_store k) 0 final
+  end.
+
+(* ---- rich objects (harness objs.go): EvWrite o ver / EvCommit [(o, ver); ...] carry the version of the object's
+   content; wm = the mutation calls (arguments as they were at the time of the call) made by the 1st, 2nd, ...
+   BatchWrite call; final = the store read back completely, (key, content) for every key of the universe; the keys of
+   object o are 8*o .. 8*o+7.  The store must be (a) what Muts.apply_muts gives for the mutation calls of the committed
+   batches in the order of the calls, and (b) on the keys of every object what the object's last committed BatchWrite
+   alone gives (objects write their full state; Muts.last_write_wins). *)
+Fixpoint objs_replay (l : list event) (wm : list (list mut)) (open : list (obj * list mut)) (st : kstore)
+    (lastw : obj -> list mut) : kstore * (obj -> list mut) :=
+  match l with
+  | [] => (st, lastw)
+  | EvWrite o _ :: r =>
+      match wm with
+      | m :: wm' => objs_replay r wm' (open ++ [(o, m)]) st lastw
+      | [] => objs_replay r [] (open ++ [(o, [])]) st lastw
+      end
+  | EvCommit _ :: r =>
+      objs_replay r wm [] (apply_muts (flat_map snd open) st) (fold_left (fun f p => upd f (fst p) (snd p)) open lastw)
+  | EvCancel :: r => objs_replay r wm [] st lastw
+  | _ :: r => objs_replay r wm open st lastw
+  end.
+
+Fixpoint natlist_eqb (a b : list nat) : bool :=
+  match a, b with
+  | [], [] => true
+  | x :: r, y :: r' => Nat.eqb x y && natlist_eqb r r'
+  | _, _ => false
+  end.
+Definition optlist_eqb (a b : option (list nat)) : bool :=
+  match a, b with None, None => true | Some x, Some y => natlist_eqb x y | _, _ => false end.
+
+Definition objs_ok (l : list event) (nobj : nat) (wm : list (list mut)) (final : list (nat * option (list nat)))
+    (stopped : bool) : bool :=
+  match proto_ok l nobj stopped with
   | None => false
   | Some k =>
-      store_eqb (k_store k) 0 final &&
-      forallb (fun o => optnat_eqb (k_store k o) (last_w (committed l) o)) (seq 0 nobj) &&
-      quiet_after_stop l &&
-      (negb stopped ||
-       (match k_unc k, k_pend k with [], [] => true | _, _ => false end &&
-        pairs_eqb (writes l) (committed l) &&
-        forallb (fun o => match last_setter (rev l) o with
-                          | Some (t, v) => match ret_of l t with
-                                           | Some RAcc | Some RDup => optnat_eqb (k_store k o) (Some v) && negb (dirty (rev l) o)
-                                           | _ => true
-                                           end
-                          | None => true
-                          end) (seq 0 nobj)))
+      let (st, lastw) := objs_replay l wm [] kempty (fun _ => []) in
+      forallb (fun kv => optlist_eqb (st (fst kv)) (snd kv)) final &&
+      forallb (fun kv => let o := Nat.div (fst kv) 8 in
+                         match k_store k o with
+                         | Some _ => optlist_eqb (apply_muts (lastw o) kempty (fst kv)) (snd kv)
+                         | None => match snd kv with None => true | Some _ => false end
+                         end) final
   end.
 
 (* ---- runs in which the store was made to fail (chronological log incl. the failed call and the panic) ----
@@ -257,7 +320,8 @@ Definition fault_ok (l : list fev) (nobj : nat) (final : list (option nat)) : bo
 Inductive case :=
 | Faulty (l : list fev) (nobj : nat) (final : list (option nat))
 | Scripted (q b : nat) (wgate : nat) (ops : list op) (holds : list (nat * nat)) (items : list (item * obs)) (final : list (option nat))
-| Free (l : list event) (nobj : nat) (final : list (option nat)) (stopped : bool).
+| Free (l : list event) (nobj : nat) (final : list (option nat)) (stopped : bool)
+| Objs (l : list event) (nobj : nat) (wm : list (list mut)) (final : list (nat * option (list nat))) (stopped : bool).
 
 Definition case_ok (cs : case) : bool :=
   match cs with
@@ -268,6 +332,7 @@ Definition case_ok (cs : case) : bool :=
       end
   | Free l nobj final stopped => free_ok l nobj final stopped
   | Faulty l nobj final => fault_ok l nobj final
+  | Objs l nobj wm final stopped => objs_ok l nobj wm final stopped
   end.
 
 Fixpoint mismatches_from (i : nat) (cs : list case) : list nat :=
